@@ -249,3 +249,47 @@ Lemma scatter_v_as_read : forall s dim idx src inc,
   aten_scatter_add_shape_v false s dim idx src = aten_scatter_add_shape s dim idx src /\
   aten_scatter_reduce_shape_v false s dim idx src inc = aten_scatter_reduce_shape s dim idx src inc.
 Proof. intros. split; reflexivity. Qed.
+
+(* C08_17: a 0-d self through the Reshape / Squeeze detour: every index / src PyTorch accepts beside a 0-d self *)
+Lemma scatter_scalar_core : forall dim a p, wrap_dim 0 dim = Some a -> scatter_elements_shape [1] dim [p] [p] = Some [1].
+Proof.
+  intros dim a p H. unfold wrap_dim in H. cbn in H. destruct ((-1 <=? dim) && (dim <? 1)) eqn:E; [|discriminate].
+  assert (dim = -1 \/ dim = 0) as [-> | ->] by lia; unfold scatter_elements_shape, norm_axis; cbn; rewrite Z.eqb_refl; reflexivity.
+Qed.
+
+Lemma scatter_src_zero_dim_fixed : forall dim idx out,
+  (zlen idx <= 1) -> torch_scatter_shape [] dim idx (Some idx) = Some out -> aten_scatter_src_shape_v true [] dim idx idx = Some out.
+Proof.
+  intros dim idx out Hi H. unfold torch_scatter_shape in H. destruct (wrap_dim (zlen []) dim) as [a|] eqn:Ea; [|discriminate]. cbn [obind] in H.
+  assert (out = []) as ->.
+  { destruct (prodZ idx =? 0); [inversion H; reflexivity|]. destruct (negb _); [discriminate|]. destruct (negb _); [discriminate|].
+    destruct (all_le _ _); [inversion H; reflexivity | discriminate]. }
+  unfold aten_scatter_src_shape_v, scalar_detour. cbn [andb zlen length Z.of_nat Z.eqb]. rewrite reshape_flat. cbn [obind prodZ fold_right].
+  unfold aten_scatter_src_shape. rewrite unsq0_ensure1. cbn [obind].
+  destruct idx as [|p [|q t]].
+  - cbn [ensure1]. rewrite (scatter_scalar_core dim a 1 Ea). reflexivity.
+  - cbn [ensure1]. rewrite (scatter_scalar_core dim a p Ea). reflexivity.
+  - rewrite !zlen_cons in Hi. pose proof (zlen_nonneg _ t). lia.
+Qed.
+
+Lemma scatter_value_zero_dim_fixed : forall dim idx out,
+  (zlen idx <= 1) -> torch_scatter_shape [] dim idx None = Some out -> aten_scatter_value_shape_v true [] dim idx = Some out.
+Proof.
+  intros dim idx out Hi H. unfold torch_scatter_shape in H. destruct (wrap_dim (zlen []) dim) as [a|] eqn:Ea; [|discriminate]. cbn [obind] in H.
+  assert (out = []) as ->.
+  { destruct (prodZ idx =? 0); [inversion H; reflexivity|]. destruct (negb _); [discriminate|]. destruct (negb _); [discriminate|]. inversion H; reflexivity. }
+  unfold aten_scatter_value_shape_v, scalar_detour. cbn [andb zlen length Z.of_nat Z.eqb]. rewrite reshape_flat. cbn [obind prodZ fold_right].
+  unfold aten_scatter_value_shape. rewrite unsq0_ensure1. cbn [obind].
+  destruct idx as [|p [|q t]].
+  - cbn [ensure1]. rewrite (scatter_scalar_core dim a 1 Ea). reflexivity.
+  - cbn [ensure1]. rewrite (scatter_scalar_core dim a p Ea). reflexivity.
+  - rewrite !zlen_cons in Hi. pose proof (zlen_nonneg _ t). lia.
+Qed.
+
+Lemma scatter_v_rank_pos : forall sf s dim idx src, 0 < zlen s ->
+  aten_scatter_src_shape_v sf s dim idx src = aten_scatter_src_shape s dim idx src /\
+  aten_scatter_value_shape_v sf s dim idx = aten_scatter_value_shape s dim idx.
+Proof.
+  intros sf s dim idx src H. unfold aten_scatter_src_shape_v, aten_scatter_value_shape_v, scalar_detour.
+  replace (zlen s =? 0) with false by lia. rewrite Bool.andb_false_r. split; reflexivity.
+Qed.
